@@ -24,35 +24,46 @@ func New[K comparable, V any]() *SerializableOrderedMap[K, V] {
 
 // Encode returns a serialized byte slice of the object.
 func (o *SerializableOrderedMap[K, V]) Encode(api *serix.API) ([]byte, error) {
-	seri := serializer.NewSerializer()
-
-	seri.WriteNum(uint32(o.Size()), func(err error) error {
-		return ierrors.Wrap(err, "failed to write SerializableOrderedMap size to serializer")
-	})
+	// the entries are collected first: the size that is written in front of them is the number of entries that follow,
+	// also when the map is modified while it is encoded (size and entries come from two steps otherwise and the result
+	// could not be decoded)
+	var encodedEntries [][]byte
+	var encodeErr error
 
 	o.ForEach(func(key K, val V) bool {
 		keyBytes, err := api.Encode(context.Background(), key)
 		if err != nil {
-			seri.AbortIf(func(_ error) error {
-				return ierrors.Wrap(err, "failed to encode SerializableOrderedMap key")
-			})
+			encodeErr = ierrors.Wrap(err, "failed to encode SerializableOrderedMap key")
+
+			return false
 		}
-		seri.WriteBytes(keyBytes, func(err error) error {
-			return ierrors.Wrap(err, "failed to write SerializableOrderedMap key to serializer")
-		})
 
 		valBytes, err := api.Encode(context.Background(), val)
 		if err != nil {
-			seri.AbortIf(func(_ error) error {
-				return ierrors.Wrap(err, "failed to serialize SerializableOrderedMap value")
-			})
+			encodeErr = ierrors.Wrap(err, "failed to serialize SerializableOrderedMap value")
+
+			return false
 		}
-		seri.WriteBytes(valBytes, func(err error) error {
-			return ierrors.Wrap(err, "failed to write SerializableOrderedMap value to serializer")
-		})
+
+		encodedEntries = append(encodedEntries, keyBytes, valBytes)
 
 		return true
 	})
+	if encodeErr != nil {
+		return nil, encodeErr
+	}
+
+	seri := serializer.NewSerializer()
+
+	seri.WriteNum(uint32(len(encodedEntries)/2), func(err error) error {
+		return ierrors.Wrap(err, "failed to write SerializableOrderedMap size to serializer")
+	})
+
+	for _, encodedEntry := range encodedEntries {
+		seri.WriteBytes(encodedEntry, func(err error) error {
+			return ierrors.Wrap(err, "failed to write SerializableOrderedMap entry to serializer")
+		})
+	}
 
 	return seri.Serialize()
 }
